@@ -75,6 +75,28 @@ def register(op):
             return _err(e)
 
     @op
+    def relocate311(a):
+        """query the tables of a 3.11+ portable code object, THEN move it (replace(co_firstlineno=...) and
+        attribute assignment) and query again; also a fresh object built at the new first line"""
+        try:
+            tab = bytes.fromhex(a["tab"])
+            first, delta = a["first"], a["delta"]
+            co = _portable(a["version"], first, b"", tab)
+            before = [list(r) for r in co.co_lines()], [list(p) if p is not None else None for p in co.co_positions()]
+            co2 = co.replace(co_firstlineno=first + delta)
+            out = {"replace_lines": [list(r) for r in co2.co_lines()],
+                   "replace_positions": [list(p) if p is not None else None for p in co2.co_positions()]}
+            co.co_firstlineno = first + delta
+            out["assign_lines"] = [list(r) for r in co.co_lines()]
+            out["assign_positions"] = [list(p) if p is not None else None for p in co.co_positions()]
+            fresh = _portable(a["version"], first + delta, b"", tab)
+            out["fresh_lines"] = [list(r) for r in fresh.co_lines()]
+            out["fresh_positions"] = [list(p) if p is not None else None for p in fresh.co_positions()]
+            return out
+        except Exception as e:  # noqa
+            return _err(e)
+
+    @op
     def parse_positions(a):
         from xdis.codetype.code311 import parse_positions as pp
         try:
